@@ -13,6 +13,20 @@ TEXT = {
          "Aliasing is invisible to value assertions; the check walks addresses of every pointer/map/slice backing array and also overwrites one version and re-checks all others. Sampled, bounded shapes and histories (<=8 re-stacks)."),
  "C03": ("rapid property test: generated object graphs over a fixed recursive node family; oracle = terminates + DeepEqual + in->out reference map is a function with fresh range",
          "Graphs of up to 8 nodes with arbitrary edges through every container kind, copied by the deep copier directly, by Config and by a re-stack; process-fatal stack overflows are caught through the per-case journal."),
+ "C04": ("rapid stateful histories inside a testing/synctest bubble against an exact reference model; the monitor is parked at schedule points (inside Verify, after the store) while readers look",
+         "Every step of a generated history (valid/invalid updates x Skip/Delay options) is compared with a model: rejected updates never stored, view/serial unchanged, error routed to the blocking caller and to OnWatchedError, candidate invisible while Verify runs. Sampled histories (<=14 ops), schedule windows forced by hooks rather than enumerated."),
+ "C05": ("rapid stateful histories inside a synctest bubble; oracle = pure reference stack of each source's latest value after every step + store log from a schedule point (serial = predecessor + 1)",
+         "Exact comparison after synctest quiescence at every step of histories up to 25 ops from up to 3 sources; interleavings are sequentialised by the harness (plus forced windows), not enumerated."),
+ "C06": ("rapid stateful histories inside a synctest bubble; a FIFO model of the callback goroutine predicts the exact global call list; registrations are forced into the store/event window by parking the monitor at a schedule point, slow callbacks park the callback goroutine",
+         "The whole ordered list of callback invocations (who, old, new by pointer identity) must equal the model's at every quiescent point; both race orders of store / registration / event are generated deliberately. Bounded histories, queue kept below the documented overflow."),
+ "C07": ("rapid stateful histories inside a synctest bubble; caller contexts cancelled before submission or while the monitor is parked in Verify / after the store / before the reply; oracle = exact model + monitor-loop counter + synctest deadlock detection",
+         "Checks read-your-write at return, error/view coupling on rejection, context errors, and that the monitor returns to its loop after an abandoned caller (an unbuffered reply channel is caught). Windows are forced by hooks; other interleavings are sampled."),
+ "C08": ("rapid histories ending in a shutdown (cancel or all watchers Done) followed by late API calls under virtual-time contexts, plus free-running multi-goroutine op mixes; oracle = no panic, monitor exits, late calls fail by their deadline, synctest deadlock and goroutine-leak detection",
+         "Deadlock/leak freedom is decided exactly per explored execution by testing/synctest; the set of executions is sampled (controlled shutdown histories + free-running actors), so rare interleavings may be missed."),
+ "C09": ("rapid stateful histories over all Delay x Suppress combinations with and without watchers; exact state machine over the Verify log, EnableVerification results and the global-callback list",
+         "Small state space explored densely (thousands of op sequences of length <=12): Verify never before enable, enable verifies exactly the installed pointer, failure keeps the delay, callbacks withheld iff delay in force and suppress option."),
+ "C20": ("rapid differential test: a transforming source with 9 mangler lists around static/watching/failing inner sources vs an unwrapped Dials fed natively, and model-based scripts of SetSource/Done on a Blank, all inside synctest bubbles",
+         "Views behind the wrapper must equal the unwrapped reference and a pure model after the initial stack and every update; errors must surface; Blank's delegation/ownership rules are checked against a small reference model. Mangler lists come from a fixed menu."),
  "C19": ("rapid property tests: decode(encode(ws)) == ws for six schemes; Go identifiers assembled from words and initialisms must split into the assembly list",
          "Cheap pure functions: hundreds of thousands of generated word lists / identifiers per run against a by-construction oracle."),
 }
